@@ -304,6 +304,7 @@ func (ip *Interp) decide(c *sym.Term) bool {
 				alt := append(append([]Dec(nil), ip.trace...), Dec{'b', 0})
 				ip.pending = append(ip.pending, Work{alt, m})
 				ip.Stats.Forks++
+				ip.noteFork()
 			}
 			take = true
 		} else {
@@ -311,6 +312,7 @@ func (ip *Interp) decide(c *sym.Term) bool {
 				alt := append(append([]Dec(nil), ip.trace...), Dec{'b', 0})
 				ip.pending = append(ip.pending, Work{alt, ip.model})
 				ip.Stats.Forks++
+				ip.noteFork()
 				ip.model = m
 				take = true
 			} else {
@@ -1145,4 +1147,19 @@ func (ip *Interp) typeAssert(instr *ssa.TypeAssert, x Value) Value {
 		ip.rtPanic(fmt.Sprintf("interface conversion: interface is %s, not %s", have, instr.AssertedType))
 	}
 	return v
+}
+
+// noteFork records where forks happen (debugging aid: GOSYM_FORKSITES=1).
+func (ip *Interp) noteFork() {
+	if ip.ForkSites == nil {
+		return
+	}
+	site := "?"
+	if ip.curFrame != nil {
+		site = ip.curFrame.fn.String()
+		if ip.curFrame.caller != nil {
+			site += " <- " + ip.curFrame.caller.fn.String()
+		}
+	}
+	ip.ForkSites[site]++
 }
